@@ -1785,6 +1785,11 @@ class Executor:
         raise Unsupported(f'compare {type(op).__name__} on {type(a).__name__},{type(b).__name__}')
 
     def equal(self, a, b):
+        hook = getattr(self.frames[-1].contract, 'equal_model', None) if self.frames else None
+        if hook is not None:
+            r = hook(self, a, b)
+            if r is not None:
+                return r
         if isinstance(b, VNone) and not isinstance(a, (VNone, VOpt)):
             return VBool(False)
         if isinstance(a, VNone):
